@@ -84,7 +84,12 @@ PENDING = ("tridiag_max_iter_1",)
 
 
 def _avoided():
+    import os
+
     from lov.findings import load
+
+    if os.environ.get("LOV_C08_AVOID") is not None:  # experiments only (e.g. verifying a proposed patch): "" = avoid nothing
+        return {t for t in os.environ["LOV_C08_AVOID"].split(",") if t}
 
     ents = [e for e in load() if e.get("property") == ID and e.get("trigger")]
     named = {e["trigger"] for e in ents}
@@ -481,6 +486,10 @@ def _ratio(name, obs, bnd):
     return r
 
 
+def _worst(obs, bnd):
+    return int(torch.argmax((obs / bnd.clamp_min(1e-300)).reshape(-1)))
+
+
 def coverage_extra():
     return {
         "tolerance_constants": {"C_FP": C_FP, "C_FLOOR": C_FLOOR, "C_KAPPA": C_KAPPA, "DOMAIN_MAX": DOMAIN_MAX, "u": U},
@@ -534,7 +543,7 @@ def _fam_sweep(S, case, labels):
             strict = nzc & (2.0 * Bd.rho ** jeff[j] < 1.0).expand_as(nzc)
             _ratio("chebyshev_rate_part", e[j][strict], bnd[strict])
             if _ratio("chebyshev", e[j], bnd) > 1.0:
-                i = int(torch.argmax((e[j] / bnd).reshape(-1)))
+                i = _worst(e[j], bnd)
                 _fail(
                     "chebyshev",
                     "sweep",
@@ -548,7 +557,7 @@ def _fam_sweep(S, case, labels):
             bnd = e[j] * grow + Bd.floor(jeff[j + 1])
             # statistic: the observed increase relative to the allowed increase
             if _ratio("monotone", (e[j + 1] - e[j]).clamp_min(0), bnd - e[j]) > 1.0:
-                i = int(torch.argmax((e[j + 1] / bnd).reshape(-1)))
+                i = _worst(e[j + 1], bnd)
                 _fail(
                     "monotone",
                     "sweep",
@@ -602,7 +611,7 @@ def _check_at_count(S, Bd, res, name, what, desc):
     nzc = ~S.iszero
     _ratio(name + "_floor_usage", (e - (bnd - Bd.floor(k))).clamp_min(0)[nzc], Bd.floor(k)[nzc])
     if _ratio(name, e, bnd) > 1.0:
-        i = int(torch.argmax((e / bnd).reshape(-1)))
+        i = _worst(e, bnd)
         _fail(
             name,
             what,
@@ -671,7 +680,7 @@ def _fam_conv(S, case, labels):
         tight = bool((bnd < 1e-2 * Bd.xsA.clamp_min(1e-300))[~S.iszero].any())
         labels.append("precond_pair:%s" % ("tight" if tight else "loose"))
         if _ratio("precond", d, bnd) > 1.0:
-            i = int(torch.argmax((d / bnd).reshape(-1)))
+            i = _worst(d, bnd)
             _fail(
                 "precond",
                 "%s-vs-%s" % (pc["kind"], pc2["kind"]),
@@ -719,7 +728,10 @@ def _fam_scale(S, case, labels):
         labels.append("scale:threshold_crossing_cols_skipped")
     want = r1["x"] * alpha
     if exact:
-        if bool(stable.all()) and r1["warned"] != r2["warned"]:
+        # columns with 0 < ||b|| < eps are iterated un-normalised (rhs_norm := 1): their residual is compared with
+        # stop_updating_after on the caller's scale, so the exit path legitimately depends on alpha -> no warning comparison
+        sub_eps = bool((S.iszero & (S.beta > 0)).any())
+        if bool(stable.all()) and not sub_eps and r1["warned"] != r2["warned"]:
             _fail("scaling", "pow2", "warning", "NumericalWarning raised for one of cg(B), cg(%g B) only; %s" % (alpha, desc))
         err = (r2["x"] - want).abs()
         bnd = 8 * S.u * want.abs().amax(-2, keepdim=True).expand_as(want) + 1e-300
@@ -753,11 +765,11 @@ def _fam_tridiag(S, case, labels):
       exactly symmetric, exactly zero outside the three diagonals.
     leading block T_k, k = number of leading rows certified clean: row i is written from alpha_i, beta_{i-1}, which are the
       true CG coefficients unless a safe division / the freeze mask fired, i.e. unless some residual r_0..r_i fell below
-      thr = C_FLOOR thr_r + D_r  (see Bounds).  The true residuals come from the budget sweep 1..m.
+      thr = C_FLOOR thr_r + 2 D_r  (see Bounds).  The true residuals come from the budget sweep 1..m.
       ritz:  eig(T_k) within [lmin(M) - tol, lmax(M) + tol], tol = C_FP (n+k) u G lmax(M) kappa(P)   (Cauchy interlacing;
-             Paige: rounded Lanczos keeps Ritz values inside the spectrum up to O(u ||M||); G = max_i ||r_{i-1}||/||r_i|| >= 1
-             because r_i is formed by cancellation from vectors of size ||r_{i-1}||, so alpha_i, beta_{i-1} carry relative
-             errors u G and the entries of T absolute errors u G lmax(M))
+             Paige: rounded Lanczos keeps Ritz values inside the spectrum up to O(u ||M||); G >= 4 is the growth factor of
+             the rounding errors of the CG-to-Lanczos conversion derived at its computation below: entries of T carry
+             absolute errors u G lmax(M))
       inv :  (T_k^-1)_11 = (e_0^2 - e_k^2) / (r_0^T P^-1 r_0)        (Gauss quadrature error of CG; exact in exact
              arithmetic for every k, = z^T M^-1 z at full Krylov dimension where e_k = 0)
       log :  |(log T_k)_11 - z^T log(M) z| <= lmax(M)/(2k) e_k^2/(r_0^T P^-1 r_0)   (from the remainder of the Gauss rule for
@@ -812,6 +824,10 @@ def _fam_tridiag(S, case, labels):
         rPr = (r0 * (Pinv @ r0)).sum(-2)
         Mfull = _sym(Cm.transpose(-1, -2) @ S.Af @ Cm)
     lamM, VM = torch.linalg.eigh(Mfull)
+    rz = []  # r_i^T P^-1 r_i of the true residuals of the sweep iterates
+    for x in its:
+        rj = S.b - S.Af @ x
+        rz.append(((rj * rj) if pc["Pinv"] is None else (rj * (Pinv @ rj))).sum(-2).clamp_min(1e-300))
     zhat = r0 if Cm is None else Cm.transpose(-1, -2) @ r0
     comp = VM.transpose(-1, -2) @ zhat  # (*B, n, t) components in the eigenbasis of M
     wts = comp**2 / (comp**2).sum(-2, keepdim=True).clamp_min(1e-300)
@@ -827,7 +843,7 @@ def _fam_tridiag(S, case, labels):
                 continue
             k = 0
             while k < m:
-                thr = C_FLOOR * float(Bd.thr_r[bi + (0,)]) + float(Bd.D_r(k)[ix])
+                thr = C_FLOOR * float(Bd.thr_r[bi + (0,)]) + 2.0 * float(Bd.D_r(k)[ix])
                 if not float(rel[k][ix]) > thr:
                     break
                 k += 1
@@ -837,9 +853,18 @@ def _fam_tridiag(S, case, labels):
             Tk = T64[(c,) + bi][:k, :k]
             lmM, lMM = float(Bd.lmM[bi + (0,)]), float(Bd.lMM[bi + (0,)])
             kM, kP = float(Bd.kM[bi + (0,)]), float(Bd.kP[bi + (0,)])
-            # r_i is formed by subtracting vectors of size ||r_{i-1}||: row i of T carries a relative rounding error of
-            # order u ||r_{i-1}|| / ||r_i||  ->  growth factor G over the rows used
-            G = max([1.0] + [float(rel[i - 1][ix]) / float(rel[i][ix]) for i in range(1, k)])
+            # growth factor G of the rounding errors in the rows used (rho_i^2 = r_i^T P^-1 r_i, within a factor 2 of the
+            # routine's own recursive values because row i is only used when ||r_i|| > 2 D_r(i)):
+            #  * r_i is formed by cancellation from vectors of size rho_{i-1}: relative error u rho_{i-1}/rho_i in alpha_i, beta_{i-1}
+            #  * 1/alpha_i = d_i^T A d_i with d_i = p_i/rho_i = v_i + sqrt(beta_{i-1}) d_{i-1}, |d_i|^2 = sum_{l<=i} rho_i^2/rho_l^2
+            #    (large when the residual norm *grows*, which CG allows): absolute error u lmax |d_i|^2 in T_ii
+            rho2 = [float(rz[i][ix]) for i in range(k)]
+            G = 1.0
+            for i in range(k):
+                G = max(G, sum(rho2[i] / rho2[l] for l in range(i + 1)))
+                if i > 0:
+                    G = max(G, math.sqrt(rho2[i - 1] / rho2[i]))
+            G *= 4.0
             fp = C_FP * (n + k) * S.u * kP * G
             where = "column %d batch %s leading %d of %d rows; %s" % (c, bi, k, m, desc)
             th, Sv = torch.linalg.eigh(Tk)
